@@ -31,6 +31,8 @@ type chunkReader struct {
 	sizes  []int
 	served int // chunks served
 	off    int
+	eff    []int // what each Read really returned (bufio offers at most its free space: a scripted chunk can be cut)
+	cut    bool  // a scripted chunk did not fit
 }
 
 func (c *chunkReader) Read(p []byte) (int, error) {
@@ -46,10 +48,14 @@ func (c *chunkReader) Read(p []byte) (int, error) {
 		n = len(c.data) - c.off
 	}
 	if n > len(p) {
-		n = len(p) // cannot happen for chunk sizes ≤ 4000
+		// the chunk is larger than what bufio has room for (4096 bytes less what is still unread): the rest
+		// comes with the next Read — the reads the parser really sees are recorded in eff
+		n = len(p)
+		c.cut = true
 	}
 	copy(p, c.data[c.off:c.off+n])
 	c.off += n
+	c.eff = append(c.eff, n)
 	return n, nil
 }
 
@@ -125,7 +131,22 @@ func token(seq ansi.Sequence) string {
 
 // runOnce feeds the stream to a fresh parser and returns the space-joined items.
 func runOnce(data []byte, sizes []int) string {
-	p := ansi.NewParser(&chunkReader{data: data, sizes: sizes})
+	res, _ := runOnceEff(data, sizes)
+	return res
+}
+
+// runOnceEff also returns the reads as the parser saw them when a scripted chunk was cut (nil otherwise).
+func runOnceEff(data []byte, sizes []int) (string, []int) {
+	cr := &chunkReader{data: data, sizes: sizes}
+	res := runOnceR(cr)
+	if cr.cut {
+		return res, cr.eff
+	}
+	return res, nil
+}
+
+func runOnceR(cr *chunkReader) string {
+	p := ansi.NewParser(cr)
 	var toks []string
 	timeout := time.NewTimer(5 * time.Second)
 	defer timeout.Stop()
@@ -146,26 +167,36 @@ func runOnce(data []byte, sizes []int) string {
 
 var timerRetries int64
 var retryMu sync.Mutex
+var cutCases int64
+var cutMu sync.Mutex
 
 // run = runOnce, re-run when an Escape-key item shows up: with an in-memory reader the 10 ms timer
 // can only fire when the goroutine was descheduled that long (not the subject of C02; C08 covers
 // the timer).  A `C0 0x1B` can come from nowhere else: `anywhere` intercepts the ESC byte.
 func run(data []byte, sizes []int) string {
+	res, _ := runEff(data, sizes)
+	return res
+}
+
+// runEff: as run; the second result is the reads as the parser saw them when a scripted chunk was
+// larger than bufio's free space (nil otherwise) — the op line then carries these.
+func runEff(data []byte, sizes []int) (string, []int) {
 	res := ""
+	var eff []int
 	for try := 0; try < 6; try++ {
-		panicked, msg := hx.Guard(func() { res = runOnce(data, sizes) })
+		panicked, msg := hx.Guard(func() { res, eff = runOnceEff(data, sizes) })
 		if panicked {
 			_ = msg
-			return "!"
+			return "!", nil
 		}
 		if !strings.Contains(" "+res+" ", " C:1b ") {
-			return res
+			return res, eff
 		}
 		retryMu.Lock()
 		timerRetries++
 		retryMu.Unlock()
 	}
-	return res
+	return res, eff
 }
 
 // ---- the cluster oracle ----------------------------------------------------------------------
@@ -295,7 +326,13 @@ func flush(r *hx.Run, batch []kase) {
 					return
 				}
 				for j := i; j < i+256 && j < len(batch); j++ {
-					impl := run(batch[j].data, batch[j].sizes)
+					impl, eff := runEff(batch[j].data, batch[j].sizes)
+					if eff != nil {
+						batch[j].sizes = eff // the reads as bufio really issued them (a chunk did not fit its buffer)
+						cutMu.Lock()
+						cutCases++
+						cutMu.Unlock()
+					}
 					if m := stdlibCheck(batch[j].data, batch[j].sizes); m != "" {
 						impl += " " + m // a clause of the standard-library contract failed on these reads
 					}
@@ -314,17 +351,30 @@ func flush(r *hx.Run, batch []kase) {
 type sink struct {
 	r     *hx.Run
 	batch []kase
+	slow  []kase // cases that are expensive for the Lean driver (long streams): spread evenly over the op file,
+	n     int    // because ./check hands contiguous blocks of lines to its 16 driver processes
 }
 
 func (s *sink) add(k kase) {
 	s.batch = append(s.batch, k)
+	s.n++
+	if s.n%2500 == 0 && len(s.slow) > 0 {
+		s.batch = append(s.batch, s.slow[0])
+		s.slow = s.slow[1:]
+	}
 	if len(s.batch) >= 1<<16 {
 		s.flush()
 	}
 }
+func (s *sink) addSlow(k kase) { s.slow = append(s.slow, k) }
 func (s *sink) flush() {
 	flush(s.r, s.batch)
 	s.batch = s.batch[:0]
+}
+func (s *sink) finish() {
+	s.batch = append(s.batch, s.slow...)
+	s.slow = nil
+	s.flush()
 }
 
 // one representative per byte class (classes = bytes that no state of the table distinguishes)
@@ -670,6 +720,50 @@ func runC02(r *hx.Run) error {
 	if r.Thorough {
 		gl, pl = 5, 4
 	}
+	// (b3) round 4: streams longer than bufio's buffer (4096 bytes) delivered in chunks that do not fit it: the
+	// reads the parser sees are cut by bufio itself (the op line carries the reads as they really were issued).
+	// An element — a two-rune cluster, a ZWJ sequence, a flag, a multi-byte rune, an invalid byte, a CSI, an OSC, a
+	// DCS — is placed so that it straddles byte 4096 (and 8192) at every offset; the filler is one long OSC
+	// payload (one item) or plain letters.
+	boundaryElems := []string{"e\u0301x", "\U0001F469\u200d\U0001F680y", "\U0001F1E9\U0001F1EAz", "\u20ac\u20ac", "\xff\xfeq", "\u0600\xffq",
+		"\x1b[1;22;333m", "\x1b]0;ti\x07", "\x1bP1$rabc\x1b\\", "\x1b\\", "\x1bOA", "\xe2\x82"}
+	bufSize := 4096
+	for ei, e := range boundaryElems {
+		for k := 0; k <= len(e); k++ {
+			if !r.Thorough && k != 1+ei%2 {
+				continue // quick tier: one offset per element (the Lean model is quadratic in the buffer length: 0.2 s per case)
+			}
+			for _, nbuf := range []int{1, 2} {
+				if nbuf == 2 && !r.Thorough {
+					continue
+				}
+				// filler so that e starts at nbuf*4096 - k
+				want := nbuf*bufSize - k
+				var sb strings.Builder
+				if (ei+k)%3 == 0 {
+					for sb.Len() < want {
+						sb.WriteByte(byte('a' + sb.Len()%26))
+					}
+				} else {
+					// OSC fillers of at most 3000 bytes each, then letters
+					for want-sb.Len() > 3010 {
+						sb.WriteString("\x1b]")
+						for j := 0; j < 2990; j++ {
+							sb.WriteByte(byte('a' + j%26))
+						}
+						sb.WriteString("\x07")
+					}
+					for sb.Len() < want {
+						sb.WriteByte('b')
+					}
+				}
+				d := sb.String()[:want] + e + "tail\x1b[2J"
+				s.addSlow(kase{data: []byte(d), kind: "buffer-boundary"})                                  // one Read of everything: cut at 4096
+				s.addSlow(kase{data: []byte(d), sizes: []int{5000, 5000}, kind: "buffer-boundary"})        // chunks larger than the buffer
+				s.addSlow(kase{data: []byte(d), sizes: []int{want - 2, 3, 4000}, kind: "buffer-boundary"}) // a short read just in front of the element
+			}
+		}
+	}
 	enumerate(s, "", gl, "exhaustive-ground")
 	for _, p := range statePrefixes {
 		enumerate(s, p, pl, "exhaustive-prefix")
@@ -829,12 +923,13 @@ func runC02(r *hx.Run) error {
 		}
 		s.add(kase{data: b, sizes: randomSplit(rng, n), kind: "raw-fuzz"})
 	}
-	s.flush()
+	s.finish()
 	r.Add("timer-artefact-retries", int(timerRetries))
 	r.Add("cluster-oracle-hypothesis-broken", int(oracleBroken))
 	r.Add("oracle-joins-c0", int(oracleJoinsC0))
 	r.Add("oracle-joins-invalid-byte", int(oracleJoinsInvalid))
 	// Model/ParserStdlib.lean : StdlibContract against the real unicode/utf8 and bufio.Reader (stdlibcontract.go)
+	r.Add("reads-cut-by-bufio", int(cutCases))
 	r.Add("stdlib-contract-checked", int(stdlibChecked))
 	r.Add("stdlib-contract-broken", int(stdlibBroken))
 	return nil
